@@ -87,7 +87,7 @@ def load_known(prop):
 
 
 def run_workers(world, tier, configs, total, base_seed, nworkers, root, wall_cap,
-                digests=False, hashseed="0", no_shrink=False):
+                digests=False, hashseed="0", no_shrink=False, soft_budget=0):
     """Returns (list of per-worker aggregate dicts, harness error strings).
 
     Seeds are global: session i of config c uses seed cfg_start + i; each worker
@@ -110,6 +110,9 @@ def run_workers(world, tier, configs, total, base_seed, nworkers, root, wall_cap
             nw = min(nw, n)
         env = worker_env(root, cenv, hashseed)
         env["SIMKIT_WALL_CAP"] = str(wall_cap)
+        if soft_budget:
+            env["SIMKIT_SOFT_BUDGET"] = str(soft_budget)
+            env["SIMKIT_T0"] = repr(time.time())
         for w in range(nw):
             out = os.path.join(tmpd, "%s_%s_%d.json" % (world, cname, w))
             cmd = [PY, "-m", "simkit.worker", "run", world, tier, cname,
@@ -138,7 +141,12 @@ def run_workers(world, tier, configs, total, base_seed, nworkers, root, wall_cap
         with open(job["out"]) as f:
             results.append(json.load(f))
 
+    t_begin = time.time()
+    skipped = [0]
     while pending or running:
+        if soft_budget and pending and time.time() - t_begin > soft_budget:
+            skipped[0] += len(pending)
+            pending = []
         while pending and len(running) < nworkers:
             job = pending.pop(0)
             job["log"] = open(job["out"] + ".log", "w")
@@ -277,10 +285,16 @@ def main(argv=None):
     total = args.sessions or (nquick if tier == "quick" else nthorough)
     base_seed = seed * 10_000_000
     wall_cap = 1500 if tier == "quick" else 6 * 3600
+    # thorough tier: a soft wall-clock budget - workers stop taking new sessions once it is
+    # spent and the run reports what it covered (VERIF_BUDGET_S overrides, 0 = none)
+    soft_budget = 0 if tier == "quick" else float(os.environ.get("VERIF_BUDGET_S", "2700") or 0)
     t0 = time.time()
     results, errors = run_workers(args.world, tier, configs, total, base_seed,
-                                  args.workers, args.root, wall_cap, no_shrink=args.no_shrink)
+                                  args.workers, args.root, wall_cap, no_shrink=args.no_shrink,
+                                  soft_budget=soft_budget)
     m = merge(results)
+    truncated = sum(1 for r in results if r.get("truncated"))
+    planned = total
     wall = time.time() - t0
     for he in m["harness_errors"]:
         errors.append("seed %s: %s" % (he["seed"], he["tb"]))
@@ -469,6 +483,9 @@ def main(argv=None):
         "level": "exploration",
         "coverage": {
             "evaluations": m["evaluations"],
+            "sessions_planned": planned,
+            "wall_clock_budget_s": soft_budget,
+            "workers_stopped_by_budget": truncated,
             "distinct_nontrivial": len(m["fingerprints"]),
             "rule": RULES.get(args.world, ""),
             "samples": m["samples"],
@@ -500,6 +517,9 @@ def main(argv=None):
         with open(path + ".tmp", "w") as f:
             json.dump(evid, f, indent=1, sort_keys=True)
         os.replace(path + ".tmp", path)
+    if truncated:
+        print("NOTE wall-clock budget of %ds reached (VERIF_BUDGET_S): %d of %d planned sessions were run"
+              % (soft_budget, m["evaluations"], planned))
     print("%s world=%s tier=%s seed=%d sessions=%d distinct=%d violations=%d known=%d wall=%.1fs exit=%d"
           % (prop, args.world, tier, seed, m["evaluations"], len(m["fingerprints"]),
              len(m["violations"]), sum(v["count"] for v in m["known_hits"].values()), wall, exit_code))
